@@ -128,6 +128,24 @@ def dict_case(case):
         d4.to_cbor()
         d4.setdefault(k1, v1)
     out['cbor4'] = d4.to_cbor().hex()
+    # fifth history: a deep copy is edited in place, nested containers included; the ORIGINAL must still encode its own content
+    d5 = deepcopy(d)
+
+    def scribble(v):
+        if isinstance(v, list):
+            for x in v:
+                scribble(x)
+            v.append(99)
+        elif isinstance(v, dict):
+            for x in v.values():
+                scribble(x)
+            v[98] = 99
+    for k, v in list(d5.data.items()):
+        scribble(v)
+    if items:
+        d5.pop(items[0][0])
+    d5.to_cbor()
+    out['cbor5'] = d.to_cbor().hex()
     return out
 
 
